@@ -65,6 +65,9 @@ func Run(id, tier string) int {
 		"every discharge is a necessary condition of the property (a way of breaking it is absent), not the property itself",
 	}, p.Assumptions...)
 	c.TrustedBase = append([]string{"go/types, go/ast, golang.org/x/tools/go/cfg (v0.50.0)", "rule tables in /verif/internal/props and /verif/spec (hand-confirmed against the source and the cited standards)"}, p.Trusted...)
+	if prog.RestoredNames > 0 {
+		c.Notes = append(c.Notes, fmt.Sprintf("%d renamed local variables were given the names of the reviewed tree before the rules ran (an alpha-conversion: the functions are the same functions); %d of them were paired by position only", prog.RestoredNames, len(prog.GuessedNames)))
+	}
 	p.Run(c)
 	if out := os.Getenv("PDFVERIF_WRITE_COUNTS"); out != "" && tier == "quick" {
 		if err := c.WriteCounts(out); err != nil {
